@@ -16,7 +16,7 @@ RULE = ('each case = 30-250 steps interleaving send_data (with/without padding, 
         'peer WINDOW_UPDATE (stream/connection, incl. exact fit to 2^31-1 and overflow) and peer SETTINGS changing '
         'INITIAL_WINDOW_SIZE up/down/into negative windows and MAX_FRAME_SIZE, over 1-12 streams incl. pushed ones and, on servers, the h2c-upgraded stream 1 whose window comes from the HTTP2-Settings header; '
         'non-trivial = at least one DATA frame checked against the shadow and one probe judged; distinct = hash of the step list')
-MINIMA = {'data_frames_checked': 5000, 'window_queries_checked': 20000, 'probe_exact_fit_ok': 500,
+MINIMA = {'settings_arriving_over_queued_data': 1000, 'data_frames_checked': 5000, 'window_queries_checked': 20000, 'probe_exact_fit_ok': 500,
           'probe_overrun_refused': 500, 'negative_window_states': 100, 'padded_data_checked': 500,
           'reserved_streams_activated': 50, 'upgraded_server_starts': 100}
 MAXW = 2 ** 31 - 1
@@ -325,6 +325,45 @@ def run_case(idx, rng, tier, rep):
                 fail('C03:valid-window-update-rejected', 'WINDOW_UPDATE(0,%d) with window %d raised %r' % (inc, sh.conn, res.exc))
                 continue
             sh.conn += inc
+        elif r < 0.92 and can_send and rng.random() < 0.25:
+            # the application has DATA queued that it has not written out yet when the peer lowers INITIAL_WINDOW_SIZE: in the
+            # byte stream E produces, that DATA (sent under the old window) comes before the acknowledgement - behind the ACK
+            # the new window holds, and DATA that does not fit it may not follow
+            sid = rng.choice(can_send)
+            room_s, room_c = sh.stream[sid], sh.conn
+            for _ in range(rng.choice([1, 2, 3])):
+                n = min(room_s, room_c, sh.mfs, rng.choice([1000, 10000, 16384]))
+                if n <= 0:
+                    break
+                if not t.call('send_data', sid, b'q' * n, _drain=False).ok:
+                    break
+                room_s -= n
+                room_c -= n
+            v = rng.choice([x for x in (0, 100, 1000, max(0, sh.iws - 1)) if x <= sh.iws])
+            res = h.send(wire.build_settings([(wire.S_INITIAL_WINDOW_SIZE, v)]))
+            steps.append(('queued-data-then-peer-settings', sid, sh.stream[sid] - room_s, v))
+            rep.count('settings_arriving_over_queued_data')
+            if res.exc is not None:
+                fail('C03:valid-settings-rejected', 'SETTINGS INITIAL_WINDOW_SIZE %d raised %r' % (v, res.exc))
+                continue
+            acked = False
+            for f in res.frames:
+                if f.type == wire.SETTINGS and f.ack and not acked:
+                    acked = True
+                    sh.delivered_settings([(wire.S_INITIAL_WINDOW_SIZE, v)])
+                elif f.type == wire.DATA:
+                    fl = f.flow_len
+                    rep.count('data_frames_checked')
+                    if fl and (fl > sh.stream.get(f.stream_id, 0) or fl > sh.conn):
+                        fail('C03:data-exceeds-stream-window:%s' % ('behind-the-settings-ack' if acked else 'queued'),
+                             'DATA of flow length %d on stream %d comes %s the SETTINGS ACK in the output, where the stream window is %d' %
+                             (fl, f.stream_id, 'behind' if acked else 'before', sh.stream.get(f.stream_id, 0)))
+                        break
+                    if f.stream_id in sh.stream:
+                        sh.stream[f.stream_id] -= fl
+                    sh.conn -= fl
+            if ctx['alive'] and not acked:
+                fail('C03:settings-not-acknowledged', 'no SETTINGS ACK among %s' % [x.brief() for x in res.frames])
         elif r < 0.92:
             pairs = []
             if rng.random() < 0.8:
